@@ -1,6 +1,7 @@
 pub mod c01;
+pub mod c02;
 pub mod fixtures;
 
 use crate::run::PropSpec;
 
-pub const ALL: &[&PropSpec] = &[&c01::SPEC];
+pub const ALL: &[&PropSpec] = &[&c01::SPEC, &c02::SPEC];
